@@ -664,27 +664,39 @@ def judge(pre_xml, msg_xml, post_xml, outcome, warns, exc_mro=()):
 
 
 def _multiset_delete(L, post_ids, sources, mos_warns, NF, kind, D):
-    """C06 for a delete where IDs repeat (in the running order / story, or in the message): each listing
-    of an ID removes one element with that ID while one is left, and is reported (one warning) when none is.
-    Which of several same-ID elements goes first is not claimed - only how many of each ID remain, and the
-    number of reports."""
-    remaining = Counter(L)
-    want_warn = 0
-    for r in sources:
-        if r[0] == 'id' and remaining.get(r[1], 0) > 0:
-            remaining[r[1]] -= 1
-        else:
-            want_warn += 1
-    remaining = +remaining
+    """C06 for a delete where IDs repeat (in the running order / story, or in the message).  What is claimed:
+    an ID that is listed is acted on - of m elements carrying it and k listings, either k of them go (one per
+    listing) or all of them (the ID names them all), never fewer; elements whose ID is not listed stay; every
+    listed ID that no element carries is reported once, and listings that find nothing left MAY be reported.
+    Which of several same-ID elements goes first is not claimed."""
+    have = Counter(L)
+    listed = Counter(r[1] for r in sources if r[0] == 'id')
     got = Counter(post_ids)
-    if +got != remaining:
+    bad = None
+    for i, m_ in have.items():
+        k = listed.get(i, 0)
+        left = got.get(i, 0)
+        allowed = {m_} if k == 0 else {max(m_ - k, 0), 0}
+        if left not in allowed:
+            bad = (i, m_, k, left)
+            break
+    if bad is None and any(i not in have for i in got):
+        bad = ('new element', 0, 0, 1)
+    n_unknown = sum(1 for r in sources if r[0] != 'id' or r[1] not in have)
+    n_repeat = sum(max(k - have.get(i, 0), 0) for i, k in listed.items() if i in have) + \
+        sum(max(k - 1, 0) for i, k in listed.items() if i in have)
+    n_warn = Counter(mos_warns).get(NF, 0)
+    if bad is not None:
         D.append(Dev('C06', 'listed-id-not-acted-on',
-                     {'kind': kind, 'pre': L, 'post': post_ids, 'sources': sources,
-                      'why': 'IDs repeat: every listing removes one element with that ID while one is left'}))
-    elif Counter(mos_warns).get(NF, 0) != want_warn:
-        D.append(Dev('C06', 'unreported-element' if Counter(mos_warns).get(NF, 0) < want_warn else 'warning-on-fully-applied',
-                     {'kind': kind, 'expected': {NF: want_warn}, 'observed': dict(Counter(mos_warns)),
-                      'why': 'delete over repeated IDs'}))
+                     {'kind': kind, 'pre': L, 'post': post_ids, 'sources': sources, 'id': bad[0], 'carried_by': bad[1],
+                      'listed': bad[2], 'left': bad[3],
+                      'why': 'IDs repeat: of m elements with a listed ID either one per listing goes, or all'}))
+    elif n_warn < n_unknown:
+        D.append(Dev('C06', 'unreported-element', {'kind': kind, 'expected_at_least': {NF: n_unknown},
+                                                   'observed': dict(Counter(mos_warns)), 'why': 'delete over repeated IDs'}))
+    elif n_warn > n_unknown + n_repeat:
+        D.append(Dev('C06', 'warning-on-fully-applied', {'kind': kind, 'expected_at_most': {NF: n_unknown + n_repeat},
+                                                         'observed': dict(Counter(mos_warns)), 'why': 'delete over repeated IDs'}))
 
 
 BLANK_CARRIED_NOTES = {'carried story with blank ID', 'carried item with blank ID'}
